@@ -23,7 +23,7 @@ LENGTHS_T = [0, 1, 2, 7, 8, 9, 255, 256, 65519, 65527, 65528, 65529, 65535, 6553
 
 def bounds(tier):
     return {
-        "H01a": "service/method/client/session 16-bit, interface version 8-bit symbolic; every defined message type x return code (110 combinations, forked); payload length in %s; suffix of 0..2 symbolic bytes or a whole second message" % (LENGTHS_T if tier == "thorough" else LENGTHS_Q),
+        "H01a": "service/method/client/session 16-bit, interface version 8-bit symbolic; every defined message type x return code (110 combinations, forked; first/last member only for payloads > 256 bytes); payload length in %s; suffix of 0..2 symbolic bytes or a whole second message" % (LENGTHS_T if tier == "thorough" else LENGTHS_Q),
         "H01b": "16 fully symbolic header bytes (incl. length field, protocol version, undefined types/codes), buffers of 0..%d bytes" % (24 if tier == "quick" else 28),
         "H01c": "1..%d concatenated messages, header fields symbolic, payload lengths from {0,1,3}, optional 1..2 byte garbage tail, through the real datagram_received" % (3 if tier == "quick" else 4),
     }
@@ -60,8 +60,12 @@ def h01a(E, M, case):
     sid, mid = E.int("service", 0, 0xFFFF), E.int("method", 0, 0xFFFF)
     cid, ssn = E.int("client", 0, 0xFFFF), E.int("session", 0, 0xFFFF)
     iv = E.int("iface", 0, 0xFF)
-    mt = E.pick("mtype", list(hdr.SOMEIPMessageType))
-    rc = E.pick("rcode", list(hdr.SOMEIPReturnCode))
+    types, codes = list(hdr.SOMEIPMessageType), list(hdr.SOMEIPReturnCode)
+    if case["plen"] > 256:
+        # long payloads: the type x code product is covered by the short ones
+        types, codes = [types[0], types[-1]], [codes[0], codes[-1]]
+    mt = E.pick("mtype", types)
+    rc = E.pick("rcode", codes)
     payload = _payload(E, case["plen"])
     msg = hdr.SOMEIPHeader(service_id=sid, method_id=mid, client_id=cid, session_id=ssn, interface_version=iv, message_type=mt, return_code=rc, payload=mk(E, payload))
     built = msg.build()
